@@ -123,7 +123,7 @@ func c12R6(c *Ctx) {
 		if fieldName(s.ch) == "signalToStep" {
 			continue // not an input hand-over (C01.R2 table, C12.R7)
 		}
-		key := fmt.Sprintf("handover:%s:%s", c.fnName(s.fn), s.ch.Name())
+		key := fmt.Sprintf("handover:%s:%s", c.fnName(s.fn), fieldName(s.ch))
 		flag := onceGuard(s.in)
 		capv, _ := c.fieldChanCap(s.ch)
 		must, _ := la.Held(s.in)
